@@ -143,3 +143,22 @@ def validate_trace(module, cfg, trace_path, timeout=600, heap="2g"):
               heap=heap, tags=("CASE",))
     rejected = [p for p in res.prints if p[0] == "REJECTED"]
     return res, rejected
+
+
+def apalache_inductive(module, cinit, indinit="IndInit", inv="IndInv", init="Init", timeout=600):
+    """Apalache: `inv` is inductive (Init => inv at length 0; indinit /\\ Next => inv' at length 1).
+    -> (ok: bool, wall seconds, tail of the output).  spec/apalache/<module>.tla"""
+    d = os.path.join(SPEC, "apalache")
+    out = os.path.join(WORK, "apalache")
+    t0 = time.time()
+    tails = []
+    ok = True
+    for a in (["--init=" + init, "--length=0"], ["--init=" + indinit, "--length=1"]):
+        cmd = ["timeout", str(timeout), "apalache-mc", "check", "--cinit=" + cinit, "--inv=" + inv, "--out-dir=" + out] + a + [module + ".tla"]
+        p = subprocess.run(cmd, cwd=d, stdout=subprocess.PIPE, stderr=subprocess.STDOUT, text=True)
+        tails.append(p.stdout[-400:])
+        if "EXITCODE: OK" not in p.stdout:
+            ok = False
+    shutil.rmtree(out, ignore_errors=True)
+    print(f"[apalache] {module} {cinit}: inductive={ok} {time.time() - t0:.1f}s", file=__import__("sys").stderr, flush=True)
+    return ok, round(time.time() - t0, 1), tails
